@@ -105,7 +105,11 @@ func (s *scanner) ScanToken() (Object, error) {
 			s.SkipByte()
 			return Operator(">>"), nil
 		default:
-			err := s.err
+			var err error
+			if len(bb) < 2 {
+				// the look-ahead was cut short by the end of input or a read error
+				err = s.err
+			}
 			if err == nil {
 				err = &postScriptError{eSyntaxerror, "unexpected '>'"}
 			}
